@@ -324,10 +324,11 @@ def nontrivial(op, l, r):
 def run(ctx: core.Check, cases=None):
     ctx.rule = ("streams: exhaustive 28x28 integer-endpoint interval pairs x 4 ops (scalar-scalar); random arrays mixing "
                 "sign classes in the 3 array pairings; every operand kind (int,float,np.float64,np.int64,0-d/1-d ndarray,bool) "
-                "on either side; random doubles over 12 decades; mismatched shapes. A case is non-trivial unless both "
+                "on either side; random doubles over 12 decades; mismatched shapes; the same object on both sides; rank-2/3 operands in C, Fortran, "
+                "transposed, strided and reversed layouts; magnitudes 1e-300…1e150. A case is non-trivial unless both "
                 "operands are the numbers 0/1; distinctness on the canonical (op,lhs,rhs) description.")
     ctx.assumptions = ["binary64 rounding is not modelled: integer/dyadic streams must agree exactly for + - *, "
-                       "random-double streams within 4*depth ulp", "arrays of rank > 2 are not exercised"]
+                       "random-double streams within 4*depth ulp", "rank-2 and rank-3 operands are compared elementwise (flattened, every memory layout); higher ranks are not exercised"]
     gen_out = core.LEAN / "Pun/Gen/ArithGen.lean"
     ctx.lean_stage(["Pun.Props.C01", "Pun.Props.C01Gen"],
                    generators=[("arithmetic.py tables", lambda: _gen(gen_out))])
